@@ -1883,3 +1883,260 @@ Proof.
   - apply FInv_mgr_sweep; assumption.
   - apply (FInv_mgr_receive s t data rest HF Ec).
 Qed.
+
+(* ---- the retry task ---- *)
+Lemma Prow_remove d d' t l :
+  (forall x, In x (tbl d' T_pending_appointments) <->
+             In x (tbl d T_pending_appointments) /\ proj x [C_pending_appointments_locator; C_pending_appointments_tower_id] <> [l; t]) ->
+  forall k x, Prow d' k x <-> Prow d k x /\ ~ (k = t /\ x = l).
+Proof.
+  intros H k x. unfold Prow. split.
+  - intros [row [A [B C]]]. apply H in A. destruct A as [A1 A2]. split; [exists row; auto|].
+    intros [-> ->]. apply A2. rewrite proj2_col, B, C. reflexivity.
+  - intros [[row [A [B C]]] Hn]. exists row. split; [|auto]. apply H. split; [exact A|].
+    intros E. rewrite proj2_col in E. inversion E. apply Hn. split; congruence.
+Qed.
+
+Lemma retrier_pending_drop s t l k :
+  retrier_pending (retrier_drop s t l) k = if N.eqb k t then set_remove l (retrier_pending s t) else retrier_pending s k.
+Proof.
+  unfold retrier_drop. destruct (aget (f_mgr s) t) as [r|] eqn:E.
+  - rewrite retrier_pending_put. cbn [r_pending]. unfold retrier_pending at 2. rewrite E. reflexivity.
+  - destruct (N.eqb k t) eqn:Ek; [|reflexivity]. apply N.eqb_eq in Ek. subst. unfold retrier_pending. rewrite E. reflexivity.
+Qed.
+
+Lemma FInv_retrier_drop s t l : FInv s -> FInv (retrier_drop s t l).
+Proof.
+  intros HF. unfold retrier_drop. destruct (aget (f_mgr s) t) as [r|] eqn:Er; [|exact HF].
+  pose proof HF as [HI [HD [HV HT]]].
+  apply FInv_put; [exact HF| | | |].
+  - intros Hp Hk x Hx. cbn [r_pending] in Hx. apply In_set_remove in Hx. destruct (HV Hp) as [_ [V2 _]]. apply V2; [exact Hk|].
+    rewrite tracked_eq. apply in_or_app. left. unfold retrier_pending. rewrite Er. tauto.
+  - intros Hp Hs. cbn [r_status r_pending] in *. destruct (HV Hp) as [_ [_ [V3 [_ V5]]]].
+    assert (Hr : rstat s t = Some RRunning) by (unfold rstat; rewrite Er; cbn; congruence).
+    split; [|apply V5, Hr]. specialize (V3 t Hr). rewrite tracked_eq in V3. unfold retrier_pending in V3. rewrite Er in V3.
+    apply NoDup_app_iff in V3. destruct V3 as [A [B C]]. apply NoDup_app_iff. split; [apply NoDup_set_remove, A|]. split; [exact B|].
+    intros x Hx. apply In_set_remove in Hx. apply C. tauto.
+  - intros Hp. cbn [r_pending]. apply NoDup_set_remove. destruct (HV Hp) as [_ [_ [_ [V4 _]]]]. eapply V4, Er.
+  - eapply TaskInv_put_same_status; [exact HT|exact Er|reflexivity].
+Qed.
+
+(* the two-statement move pending -> accepted (kind 0) / pending -> invalid (kind 2) of a held pending row *)
+Lemma DurInv_move d d1 d3 due t l (kind : nat) :
+  DbInv d3 -> (kind = 0%nat \/ kind = 2%nat) ->
+  Prow d t l ->
+  (forall k x, Rrow d1 k x <-> Rrow d k x \/ (kind = 0%nat /\ k = t /\ x = l)) ->
+  (forall k x, Irow d1 k x <-> Irow d k x \/ (kind = 2%nat /\ k = t /\ x = l)) ->
+  (forall k x, Rrow d3 k x <-> Rrow d1 k x) -> (forall k x, Irow d3 k x <-> Irow d1 k x) ->
+  (forall k x, Prow d3 k x <-> Prow d k x /\ ~ (k = t /\ x = l)) ->
+  (forall k, Mrow d3 k <-> Mrow d k) -> (forall k, Trow d3 k <-> Trow d k) ->
+  DurInv d due -> DurInv d3 due.
+Proof.
+  intros HD Hkind HP ER EI ER3 EI3 EP EM ET [_ [U E0]]. split; [exact HD|]. split.
+  - intros k x Hm. assert (Hm0 : ~ Mrow d k) by (intros H; apply Hm, EM, H). destruct (U k x Hm0) as [A [B C]].
+    unfold excl3. rewrite !ER3, !EI3, !ER, !EI, !EP.
+    destruct (N.eq_dec k t) as [->|Hk]; [destruct (N.eq_dec x l) as [->|Hx]|].
+    + (* the moved pair *) repeat split; try tauto. intros [[H1|[K1 _]] [H2|[K2 _]]]; try tauto; lia.
+    + repeat split; tauto.
+    + repeat split; tauto.
+  - intros k x Hin. destruct (E0 k x Hin) as [A B]. split; [apply ET, A|]. intros Hm.
+    assert (Hm0 : ~ Mrow d k) by (intros H; apply Hm, EM, H). specialize (B Hm0). rewrite ER3, EI3, ER, EI, EP.
+    destruct (N.eq_dec k t) as [->|Hk]; [destruct (N.eq_dec x l) as [->|Hx]|]; try tauto.
+    all: destruct Hkind as [->| ->]; [left|right; right]; right; repeat split; reflexivity.
+Qed.
+
+Lemma FInv_move_generic s t l (kind : nat) c2 r2 :
+  FInv s -> poisoned s = false -> knownc (f_c s) t -> rstat s t = Some RRunning -> In l (retrier_pending s t) ->
+  (kind = 0%nat \/ kind = 2%nat) ->
+  Inv c2 -> c_retriers c2 = c_retriers (f_c s) -> (forall k, stat c2 k = stat (f_c s) k) -> healthy_or_abort c2 r2 ->
+  (r2 = ROk \/ exists st, r2 = RAbort st) ->
+  (is_abort r2 = true -> c_db c2 = c_db (f_c s)) ->
+  (r2 = ROk ->
+     (forall k x, Rrow (c_db c2) k x <-> Rrow (c_db (f_c s)) k x \/ (kind = 0%nat /\ k = t /\ x = l)) /\
+     (forall k x, Irow (c_db c2) k x <-> Irow (c_db (f_c s)) k x \/ (kind = 2%nat /\ k = t /\ x = l)) /\
+     tbl (c_db c2) T_pending_appointments = tbl (c_db (f_c s)) T_pending_appointments /\
+     (forall k, Mrow (c_db c2) k <-> Mrow (c_db (f_c s)) k) /\ (forall k, Trow (c_db c2) k <-> Trow (c_db (f_c s)) k)) ->
+  match lift_site r2 with
+  | Some _ => FInv (set_c (retrier_drop s t l) c2)
+  | None => lift_site (snd (wt_remove_pending_appointment c2 t l)) = None /\
+            FInv (set_c (retrier_drop s t l) (fst (wt_remove_pending_appointment c2 t l))) /\
+            c_poisoned (fst (wt_remove_pending_appointment c2 t l)) = false /\
+            (forall k, stat (fst (wt_remove_pending_appointment c2 t l)) k = stat (f_c s) k)
+  end.
+Proof.
+  intros HF Hp Hk Hrun Hl Hkind HI2 Hret2 Hst2 Hh2 Hres2 Habort Hok.
+  pose proof HF as [HI [HD [HV HT]]]. destruct (HV Hp) as [V1 [V2 [V3 [V4 V5]]]].
+  pose proof (FInv_retrier_drop s t l HF) as HF2. set (s2 := retrier_drop s t l) in *.
+  assert (Ec2 : f_c s2 = f_c s) by (unfold s2, retrier_drop; destruct (aget (f_mgr s) t); reflexivity).
+  assert (Ed2 : f_due s2 = f_due s) by (unfold s2, retrier_drop; destruct (aget (f_mgr s) t); reflexivity).
+  assert (HPl : Prow (c_db (f_c s)) t l).
+  { apply V2; [exact Hk|]. rewrite tracked_eq. apply in_or_app. left. exact Hl. }
+  destruct Hres2 as [->|[st0 ->]]; cbn [lift_site].
+  2:{ apply FInv_poisoned_same_db; [exact HF2|exact HI2|rewrite Ec2; apply Habort; reflexivity|exact Hh2]. }
+  destruct (Hok eq_refl) as [ER [EI [EPt [EM ET]]]].
+  assert (Hp2 : c_poisoned c2 = false) by exact Hh2.
+  assert (Hk2 : knownc c2 t) by (apply (knownc_stat _ _ Hst2), Hk).
+  assert (HP2 : Prow (c_db c2) t l) by (apply (Prow_ext _ _ t l EPt), HPl).
+  destruct (wt_remove_pending_appointment c2 t l) as [c3 r3] eqn:E3. cbn [fst snd].
+  destruct (prim_remove_pending _ _ _ _ _ HI2 Hp2 Hk2 HP2 E3) as [HI3 [Hret3 [Hst3 [-> [Hp3 [HPr Hfr]]]]]].
+  split; [reflexivity|]. split; [|split; [exact Hp3|intros k; rewrite Hst3; apply Hst2]].
+  pose proof (Prow_remove _ _ t l HPr) as EP3.
+  assert (EP : forall k x, Prow (c_db c3) k x <-> Prow (c_db (f_c s)) k x /\ ~ (k = t /\ x = l)).
+  { intros k x. rewrite EP3, (Prow_ext _ _ k x EPt). tauto. }
+  assert (EM3 : forall k, Mrow (c_db c3) k <-> Mrow (c_db (f_c s)) k).
+  { intros k. rewrite (Mrow_ext _ _ k (Hfr T_misbehaving_proofs ltac:(discriminate) ltac:(discriminate))). apply EM. }
+  apply FInv_client; [exact HF2|exact HI3| |].
+  - rewrite Ed2. apply (DurInv_move (c_db (f_c s)) (c_db c2) (c_db c3) (f_due s) t l kind); auto; try apply HI3.
+    + intros k x. apply Rrow_ext, Hfr; discriminate.
+    + intros k x. apply Irow_ext, Hfr; discriminate.
+    + intros k. rewrite (Trow_ext _ _ k (Hfr T_towers ltac:(discriminate) ltac:(discriminate))). apply ET.
+  - intros _. split; [unfold poisoned; rewrite Ec2; exact Hp|]. split; [|split].
+    + intros k Hk'. apply EM3, V1. rewrite <- Hst2, <- Hst3. exact Hk'.
+    + intros k Hk' x Hx. apply EP.
+      assert (Hx0 : In x (tracked s k)).
+      { rewrite tracked_eq in *.
+        assert (Ech : f_chan s2 = f_chan s) by (unfold s2, retrier_drop; destruct (aget (f_mgr s) t); reflexivity).
+        rewrite Ech in Hx. unfold s2 in Hx. rewrite retrier_pending_drop in Hx. destruct (N.eqb k t) eqn:Ekt; [|exact Hx].
+        apply N.eqb_eq in Ekt. subst k. apply in_app_or in Hx. destruct Hx as [Hx|Hx]; apply in_or_app; [left; apply In_set_remove in Hx; tauto|right; exact Hx]. }
+      split.
+      * apply V2; [|exact Hx0]. apply (knownc_stat _ _ Hst2). apply (knownc_stat _ _ Hst3). exact Hk'.
+      * intros [-> ->]. specialize (V3 t Hrun). rewrite tracked_eq in V3, Hx. apply NoDup_app_iff in V3. destruct V3 as [_ [_ Hdis]].
+        assert (Ech : f_chan s2 = f_chan s) by (unfold s2, retrier_drop; destruct (aget (f_mgr s) t); reflexivity).
+        rewrite Ech in Hx. unfold s2 in Hx. rewrite retrier_pending_drop, N.eqb_refl in Hx.
+        apply in_app_or in Hx. destruct Hx as [Hx|Hx]; [apply In_set_remove in Hx; tauto|exact (Hdis l Hl Hx)].
+    + rewrite Hret3, Hret2, Ec2. reflexivity.
+Qed.
+
+Definition RunPre (s : fstate) (t : N) : Prop :=
+  FInv s /\ poisoned s = false /\ knownc (f_c s) t /\ rstat s t = Some RRunning.
+
+Definition no_abort (res : option run_res) : Prop := match res with Some (RunAbort _) => False | _ => True end.
+
+Lemma add_receipt_spec_for_move c t l slots c2 r2 :
+  Inv c -> c_poisoned c = false -> knownc c t ->
+  wt_add_appointment_receipt c t l slots START_BLOCK USER_SIG SIG_TOWER = (c2, r2) ->
+  Inv c2 /\ c_retriers c2 = c_retriers c /\ (forall k, stat c2 k = stat c k) /\ healthy_or_abort c2 r2 /\
+  (r2 = ROk \/ exists st, r2 = RAbort st) /\ (is_abort r2 = true -> c_db c2 = c_db c) /\
+  (r2 = ROk ->
+     (forall k x, Rrow (c_db c2) k x <-> Rrow (c_db c) k x \/ (0%nat = 0%nat /\ k = t /\ x = l)) /\
+     (forall k x, Irow (c_db c2) k x <-> Irow (c_db c) k x \/ (0%nat = 2%nat /\ k = t /\ x = l)) /\
+     tbl (c_db c2) T_pending_appointments = tbl (c_db c) T_pending_appointments /\
+     (forall k, Mrow (c_db c2) k <-> Mrow (c_db c) k) /\ (forall k, Trow (c_db c2) k <-> Trow (c_db c) k)).
+Proof.
+  intros HI Hp Hk E. destruct (prim_add_receipt _ _ _ _ _ _ _ _ _ HI Hp E) as [HI' [Hret [Hst [Hh [Heff Hrow]]]]].
+  pose proof (add_receipt_result c t l slots START_BLOCK USER_SIG SIG_TOWER Hk) as Hres. rewrite E in Hres. cbn [snd] in Hres.
+  split; [exact HI'|]. split; [exact Hret|]. split; [exact Hst|]. split; [exact Hh|]. split; [exact Hres|]. split.
+  - intros Ha. destruct Heff as [Ed|[-> _]]; [exact Ed|discriminate].
+  - intros ->. destruct Heff as [Ed|[_ [_ [_ [_ [T5 [T0 Hfr]]]]]]].
+    + rewrite Ed. repeat split; try tauto; try (intros [H|[H _]]; [exact H|discriminate]).
+      intros [H|[_ [-> ->]]]; [exact H|]. rewrite <- Ed. apply Hrow; auto.
+    + split; [intros k x; rewrite (Rrow_app _ _ _ _ _ _ _ k x T5); tauto|].
+      split; [intros k x; rewrite (Irow_ext _ _ k x (Hfr T_invalid_appointments ltac:(discriminate) ltac:(discriminate))); split; [tauto|intros [H|[H _]]; [exact H|discriminate]]|].
+      split; [apply Hfr; discriminate|]. split; [intros k; apply Mrow_ext, Hfr; discriminate|].
+      intros k. apply (Trow_map _ _ _ k T0 (upd_slots_key t slots)).
+Qed.
+
+Lemma add_invalid_spec_for_move c t l b dl c2 r2 :
+  Inv c -> c_poisoned c = false -> knownc c t ->
+  wt_add_invalid_appointment c t l b dl = (c2, r2) ->
+  Inv c2 /\ c_retriers c2 = c_retriers c /\ (forall k, stat c2 k = stat c k) /\ healthy_or_abort c2 r2 /\
+  (r2 = ROk \/ exists st, r2 = RAbort st) /\ (is_abort r2 = true -> c_db c2 = c_db c) /\
+  (r2 = ROk ->
+     (forall k x, Rrow (c_db c2) k x <-> Rrow (c_db c) k x \/ (2%nat = 0%nat /\ k = t /\ x = l)) /\
+     (forall k x, Irow (c_db c2) k x <-> Irow (c_db c) k x \/ (2%nat = 2%nat /\ k = t /\ x = l)) /\
+     tbl (c_db c2) T_pending_appointments = tbl (c_db c) T_pending_appointments /\
+     (forall k, Mrow (c_db c2) k <-> Mrow (c_db c) k) /\ (forall k, Trow (c_db c2) k <-> Trow (c_db c) k)).
+Proof.
+  intros HI Hp Hk E. destruct (prim_add_invalid _ _ _ _ _ _ _ HI Hp E) as [HI' [Hret [Hst [Hh [Heff Hrow]]]]].
+  pose proof (add_invalid_result c t l b dl Hk) as Hres. rewrite E in Hres. cbn [snd] in Hres.
+  split; [exact HI'|]. split; [exact Hret|]. split; [exact Hst|]. split; [exact Hh|]. split; [exact Hres|]. split.
+  - intros Ha. destruct Heff as [Ed|[-> _]]; [exact Ed|discriminate].
+  - intros ->. destruct Heff as [Ed|[_ [_ [_ [T3 Hfr]]]]].
+    + rewrite Ed. repeat split; try tauto; try (intros [H|[H _]]; [exact H|discriminate]).
+      intros [H|[_ [-> ->]]]; [exact H|]. rewrite <- Ed. apply Hrow; auto.
+    + split; [intros k x; rewrite (Rrow_ext _ _ k x (Hfr T_appointment_receipts ltac:(discriminate) ltac:(discriminate))); split; [tauto|intros [H|[H _]]; [exact H|discriminate]]|].
+      split; [intros k x; rewrite (Irow_app _ _ _ _ k x T3); tauto|].
+      split; [apply Hfr; discriminate|]. split; [intros k; apply Mrow_ext, Hfr; discriminate|].
+      intros k. apply Trow_ext, Hfr; discriminate.
+Qed.
+
+Lemma f_c_retrier_drop s t l : f_c (retrier_drop s t l) = f_c s.
+Proof. unfold retrier_drop. destruct (aget (f_mgr s) t); reflexivity. Qed.
+
+Lemma FInv_run_for t : forall locs s adds s' adds' res,
+  RunPre s t -> NoDup locs -> (forall l, In l locs -> In l (retrier_pending s t)) ->
+  run_for s t locs adds = (s', adds', res) ->
+  FInv s' /\ (no_abort res -> poisoned s' = false /\ (forall k, knownc (f_c s') k <-> knownc (f_c s) k)) /\
+  (res = None -> forall l, In l locs -> ~ In l (retrier_pending s' t)) /\
+  (forall x, In x (retrier_pending s' t) -> In x (retrier_pending s t)) /\ res <> Some RunFuel.
+Proof.
+  induction locs as [|l locs IH]; intros s adds s' adds' res [HF [Hp [Hk Hrun]]] Hnd Hsub E; cbn [run_for] in E.
+  { inversion E. subst. split; [exact HF|]. split; [intros _; split; [exact Hp|tauto]|]. split; [intros _ x []|]. split; [auto|discriminate]. }
+  unfold poisoned in Hp. pose proof Hp as Hp'. unfold poisoned in E. rewrite Hp in E.
+  inversion Hnd as [|? ? Hnl Hnd']. subst.
+  pose proof HF as [HI [HD [HV HT]]].
+  destruct (dbm_load_appointment (c_db (f_c s)) l) as [body|].
+  2:{ inversion E. subst. split; [|split; [intros []|split; [discriminate|split; [auto|discriminate]]]].
+      apply FInv_poisoned_same_db; [exact HF|apply Inv_poison, HI|reflexivity|reflexivity]. }
+  set (s1 := log_req s (ReqAdd t l)) in *.
+  assert (HF1 : FInv s1) by (apply (FInv_core s); auto).
+  destruct (next_reply adds) as [rp adds1].
+  (* the continuation after a completed move *)
+  assert (Hcont : forall c3 s3, s3 = set_c (retrier_drop s1 t l) c3 \/ True ->
+            forall sX, FInv sX -> poisoned sX = false -> (forall k, knownc (f_c sX) k <-> knownc (f_c s) k) -> rstat sX t = Some RRunning ->
+            (forall x, In x (retrier_pending sX t) <-> In x (retrier_pending s t) /\ x <> l) ->
+            run_for sX t locs adds1 = (s', adds', res) ->
+            FInv s' /\ (no_abort res -> poisoned s' = false /\ (forall k, knownc (f_c s') k <-> knownc (f_c s) k)) /\
+            (res = None -> forall x, In x (l :: locs) -> ~ In x (retrier_pending s' t)) /\
+            (forall x, In x (retrier_pending s' t) -> In x (retrier_pending s t)) /\ res <> Some RunFuel).
+  { intros _ _ _ sX HFX HpX HkX HrX HpendX EX.
+    destruct (IH sX adds1 s' adds' res) as [A [B [C [D F]]]]; [exact (conj HFX (conj HpX (conj (proj2 (HkX t) Hk) HrX)))|exact Hnd'| |exact EX|].
+    - intros x Hx. apply HpendX. split; [apply Hsub; right; exact Hx|]. intros ->. contradiction.
+    - split; [exact A|]. split; [intros Hna; destruct (B Hna) as [B1 B2]; split; [exact B1|intros k; rewrite B2; apply HkX]|].
+      split; [|split; [intros x Hx; apply HpendX, D, Hx|exact F]].
+      intros Hr x [<-|Hx]; [|apply C; assumption]. intros Hin. apply D, HpendX in Hin. tauto. }
+  assert (Hpend_drop : forall sX, (forall k, retrier_pending sX k = retrier_pending (retrier_drop s1 t l) k) ->
+            forall x, In x (retrier_pending sX t) <-> In x (retrier_pending s t) /\ x <> l).
+  { intros sX HX x. rewrite HX, retrier_pending_drop, N.eqb_refl, In_set_remove. reflexivity. }
+  assert (Hl : In l (retrier_pending s1 t)) by (apply Hsub; left; reflexivity).
+  destruct rp as [slots| | | | | | |].
+  - (* accepted *)
+    rewrite f_c_retrier_drop in E.
+    destruct (wt_add_appointment_receipt (f_c s1) t l slots START_BLOCK USER_SIG SIG_TOWER) as [c2 r2] eqn:E2.
+    destruct (add_receipt_spec_for_move _ _ _ _ _ _ HI Hp' Hk E2) as [S1 [S2 [S3 [S4 [S5 [S6 S7]]]]]].
+    pose proof (FInv_move_generic s1 t l 0 c2 r2 HF1 Hp' Hk Hrun Hl (or_introl eq_refl) S1 S2 S3 S4 S5 S6 S7) as Hmove.
+    destruct (lift_site r2) as [site|] eqn:El2.
+    + inversion E. subst. split; [exact Hmove|]. split; [intros []|]. split; [discriminate|]. split; [|discriminate].
+      intros x Hx. change (retrier_pending (wr_c (retrier_drop s1 t l) c2) t) with (retrier_pending (retrier_drop s1 t l) t) in Hx.
+      rewrite retrier_pending_drop, N.eqb_refl in Hx. apply In_set_remove in Hx. tauto.
+    + destruct (wt_remove_pending_appointment c2 t l) as [c3 r3] eqn:E3. cbn [fst snd] in Hmove. destruct Hmove as [M1 [M2 [M3 M4]]].
+      rewrite M1 in E. eapply (Hcont c3 (set_c s c3) (or_intror I) (wr_c (wr_c (retrier_drop s1 t l) c2) c3)); [exact M2|exact M3| | | |exact E].
+      * intros k. cbn [f_c wr_c]. apply (knownc_stat _ _ M4).
+      * change (rstat (wr_c (wr_c (retrier_drop s1 t l) c2) c3) t) with (rstat (retrier_drop s1 t l) t). rewrite retrier_drop_rstat. exact Hrun.
+      * apply Hpend_drop. reflexivity.
+  - inversion E. subst. split; [exact HF1|]. split; [intros _; split; [exact Hp'|tauto]|]. split; [discriminate|]. split; [auto|discriminate].
+  - inversion E. subst. split; [exact HF1|]. split; [intros _; split; [exact Hp'|tauto]|]. split; [discriminate|]. split; [auto|discriminate].
+  - inversion E. subst. split; [exact HF1|]. split; [intros _; split; [exact Hp'|tauto]|]. split; [discriminate|]. split; [auto|discriminate].
+  - inversion E. subst. split; [exact HF1|]. split; [intros _; split; [exact Hp'|tauto]|]. split; [discriminate|]. split; [auto|discriminate].
+  - inversion E. subst. split; [exact HF1|]. split; [intros _; split; [exact Hp'|tauto]|]. split; [discriminate|]. split; [auto|discriminate].
+  - (* subscription error *)
+    inversion E. subst. split; [refine (FInv_set_status s1 t SubscriptionError HF1 Hp' _); discriminate|].
+    split; [|split; [discriminate|split; [auto|discriminate]]].
+    intros _. split.
+    + unfold poisoned. cbn [f_c set_c]. destruct (prim_set_status (f_c s) t SubscriptionError HI) as [_ [_ [_ [Hpo _]]]]. rewrite Hpo. exact Hp'.
+    + intros k. apply knownc_set_status.
+  - (* rejected *)
+    rewrite f_c_retrier_drop in E.
+    destruct (wt_add_invalid_appointment (f_c s1) t l (col body C_appointments_encrypted_blob) (col body C_appointments_to_self_delay)) as [c2 r2] eqn:E2.
+    destruct (add_invalid_spec_for_move _ _ _ _ _ _ _ HI Hp' Hk E2) as [S1 [S2 [S3 [S4 [S5 [S6 S7]]]]]].
+    pose proof (FInv_move_generic s1 t l 2 c2 r2 HF1 Hp' Hk Hrun Hl (or_intror eq_refl) S1 S2 S3 S4 S5 S6 S7) as Hmove.
+    destruct (lift_site r2) as [site|] eqn:El2.
+    + inversion E. subst. split; [exact Hmove|]. split; [intros []|]. split; [discriminate|]. split; [|discriminate].
+      intros x Hx. change (retrier_pending (wr_c (retrier_drop s1 t l) c2) t) with (retrier_pending (retrier_drop s1 t l) t) in Hx.
+      rewrite retrier_pending_drop, N.eqb_refl in Hx. apply In_set_remove in Hx. tauto.
+    + destruct (wt_remove_pending_appointment c2 t l) as [c3 r3] eqn:E3. cbn [fst snd] in Hmove. destruct Hmove as [M1 [M2 [M3 M4]]].
+      rewrite M1 in E. eapply (Hcont c3 (set_c s c3) (or_intror I) (wr_c (wr_c (retrier_drop s1 t l) c2) c3)); [exact M2|exact M3| | | |exact E].
+      * intros k. cbn [f_c wr_c]. apply (knownc_stat _ _ M4).
+      * change (rstat (wr_c (wr_c (retrier_drop s1 t l) c2) c3) t) with (rstat (retrier_drop s1 t l) t). rewrite retrier_drop_rstat. exact Hrun.
+      * apply Hpend_drop. reflexivity.
+Qed.
